@@ -149,10 +149,10 @@ class Summariser:
                         continue
                     f = must.switch_fact(bb, {s})
                     new = normalise_atom(must, term, t.get("dty"), f[2], f[3], t["op"])
-                    from .must import canon_okness, canon_arith
+                    from .must import canon_all
                     for a_ in list(new):
-                        for b_ in (canon_okness(a_), canon_arith(a_)):
-                            if b_ is not None and b_ not in new:
+                        for b_ in canon_all(a_):
+                            if b_ not in new:
                                 new.append(b_)
                     if self._contradiction(sym, new, atoms):
                         continue
@@ -351,7 +351,16 @@ class Summariser:
 
     def _bind(self, f, call):
         env = {}
-        for i, arg in enumerate(call[2]):
+        args = list(call[2])
+        if call[1] in ("call", "call_mut", "call_once") and len(args) == 2 and "{closure" in f.key:
+            # `f(a, b)` on a closure is Fn::call(&f, (a, b)); the closure body takes (env, a, b)
+            tup = args[1]
+            n = len(f.locals) - 1 if f.argc is None else f.argc
+            if tup[0] == "tuple":
+                args = [args[0]] + list(tup[1])
+            else:
+                args = [args[0]] + [("field", tup, str(i)) for i in range(max(0, n - 1))]
+        for i, arg in enumerate(args):
             if i + 1 < len(f.locals):
                 env[("param", i + 1, f.locals[i + 1].get("name"))] = arg
         return env
